@@ -337,7 +337,7 @@ pub fn run(ctx: &Ctx) -> Report {
         // A: the way the serializer is used (and tested) upstream: at most one sentinel per fragment and
         //    the sentinel in tail position (nothing is serialized after it inside the fragment); fresh
         //    nodes or one re-used NodePtr; undo to any saved state. Deep bounds.
-        Space { name: "A", frags: tail.clone(), reuse_ok: tail.clone(), max_adds: ctx.pick(4, 5), max_undos: 2, max_events: ctx.pick(6, 7) },
+        Space { name: "A", frags: tail.clone(), reuse_ok: tail.clone(), max_adds: ctx.pick(4, 5), max_undos: 2, max_events: ctx.pick(5, 7) },
         // N: sentinel in any position (single occurrence), fresh nodes, one undo
         Space { name: "N", frags: single.clone(), reuse_ok: vec![], max_adds: 3, max_undos: 1, max_events: 4 },
         // B: fragments with repeated sentinels, fresh nodes, no undo
